@@ -454,8 +454,8 @@ def gen_xmlish(rng, depth=0):
 
 
 URLS = ["a b.png", "http://x/é y?a=1&b=2", "plain.html", "café/€.gif", "q?x=\"1\"", "#frag", "\U0001d11e.mid", "a%20b"]
-SCRIPTS = ["if (a<b && c>d) x();", "var s = \"q\";", "a&b", "x = 1 < 2;"]
-STYLES = ["p > a { x: 'y' }", "b{c:d}", "a:before { content: \"<\" }"]
+SCRIPTS = ["if (a<b && c>d) x();", "var s = \"q\";", "a&b", "x = 1 < 2;", "var e = 'caf\u00e9 \u20ac';"]
+STYLES = ["p > a { x: 'y' }", "b{c:d}", "a:before { content: \"<\" }", "q:after { content: '\u00e9\u20ac' }"]
 
 
 def gen_htmlish(rng, root="html", lead_comment=False):
